@@ -437,6 +437,36 @@ def run(ctx, V):
         if sorted(o["visit"]) != want_v or sorted(o["walk"]) != want_w:
             V.disagreement("subpyramid_restriction", dict(pyramid=[kind, depth, [list(p) for p in table], list(apex), sub]),
                            dict(visit=want_v[:8], walk=want_w[:8]), dict(visit=sorted(o["visit"])[:8], walk=sorted(o["walk"])[:8]), True)
+    # the reported counts must also equal what PARALLEL walks and leaf visits touch
+    n_par = 0
+    import os
+    par_cases = [c for c in cases if c[0] == 2 and c[1] >= 2][: (6 if tier == "quick" else 40)]
+    # make sure an accept-but-childless tile one level above the leaves is among them
+    par_cases.append((2, 3, ((1, 0, 0), (2, 0, 0), (2, 1, 1), (3, 0, 0), (3, 1, 1)), (0, 0, 0), False))
+    for c in par_cases:
+        kind, depth, table, apex, sub = c
+        d = common.workdir() / f"c13par{n_par}"
+        d.mkdir(exist_ok=True)
+
+        def note(name, pos, d=d):
+            fd = os.open(str(d / name), os.O_WRONLY | os.O_APPEND | os.O_CREAT)
+            os.write(fd, f"{pos.n} {pos.x} {pos.y}\n".encode())
+            os.close(fd)
+
+        sink = io.StringIO()
+        with contextlib.redirect_stdout(sink):
+            build_pyramid(*c).walk(lambda pos: note("walk", pos), parallel=2)
+            build_pyramid(*c).visit_leaves(lambda pos, tile: note("visit", pos), parallel=2)
+            n_ops = build_pyramid(*c).count_operations()
+            n_leaf = build_pyramid(*c).count_leaf_tiles()
+        got_w = sorted(tuple(map(int, l.split())) for l in open(d / "walk")) if (d / "walk").exists() else []
+        got_v = sorted(tuple(map(int, l.split())) for l in open(d / "visit")) if (d / "visit").exists() else []
+        n_par += 1
+        if len(got_w) != n_ops or len(got_v) != n_leaf or len(set(got_w)) != len(got_w):
+            V.disagreement("counts = tiles visited by parallel walk / leaf visit",
+                           dict(pyramid=[kind, depth, [list(p) for p in table], list(apex), sub], parallel=2),
+                           dict(count_operations=n_ops, count_leaf_tiles=n_leaf),
+                           dict(walk_callbacks=len(got_w), leaf_callbacks=len(got_v)), True)
     # position algebra
     alg = alg_cases(rng, tier)
     bad_a = common.coq_eval_sharded(COQ_DEFS, [t for t, _ in alg], "chk_alg", ["Model.Quadtree", "Model.Reducer"],
@@ -453,5 +483,5 @@ def run(ctx, V):
                      "(density 0.3-1.0, accept-but-childless shapes) depth 1-5 with random apexes; non-trivial = "
                      "distinct (kind,depth,table,apex,sub) with a pruned subtree or an active sub-pyramid; "
                      "algebra: random positions to depth 60 incl. error branches",
-                exhaustive_part=n_exh, subpyramid_restriction_checks=n_sub,
+                exhaustive_part=n_exh, subpyramid_restriction_checks=n_sub, parallel_count_checks=n_par,
                 input_histogram=hist, samples=samples)
